@@ -313,3 +313,33 @@ Proof.
   apply Forall_firstn. apply Forall_skipn. eapply ragged_loop_wf; [exact E| |exact Ho].
   apply Forall_app. split; [apply repeat_nil_wf|]. apply Forall_app. split; [exact Hw|apply repeat_nil_wf].
 Qed.
+
+(* ==== insert_into_range never raises inside its loop ==== *)
+Lemma advance_spec ms o n : forall i, (i + n <= length ms)%nat ->
+  let i' := advance ms o i n in
+  (i <= i' <= i + n)%nat /\
+  ((i' < i + n)%nat -> exists m, nth_error ms i' = Some m /\ operates_on m (qs o) = false).
+Proof.
+  induction n as [|n IH]; intros i Hb; simpl.
+  - split; [lia|]. intros H. lia.
+  - destruct (nth_error ms i) as [m|] eqn:En.
+    + destruct (operates_on m (qs o)) eqn:Eo.
+      * destruct (IH (S i) ltac:(lia)) as [H1 H2]. split; [lia|]. intros H. apply H2. lia.
+      * split; [lia|]. intros _. exists m. split; assumption.
+    + apply nth_error_None in En. lia.
+Qed.
+
+Lemma range_loop_noerr ops : forall ms i e ms' rest er,
+  (e <= length ms)%nat -> range_loop ms i e ops = (ms', rest, er) -> er = None.
+Proof.
+  induction ops as [|o r IH]; intros ms i e ms' rest er He H; simpl in H.
+  - injection H as <- <- <-. reflexivity.
+  - destruct (Nat.leb e (advance ms o i (e - i))) eqn:El; [injection H as <- <- <-; reflexivity|].
+    apply Nat.leb_gt in El.
+    assert (Hi : (i <= e)%nat).
+    { destruct (Nat.le_gt_cases i e) as [Hle|Hgt]; [exact Hle|]. replace (e - i)%nat with 0%nat in El by lia. simpl in El. lia. }
+    destruct (advance_spec ms o (e - i) i ltac:(lia)) as [H1 H2].
+    destruct (H2 ltac:(lia)) as [m [Hn Ho]]. rewrite Hn in H.
+    unfold with_operation in H. rewrite Ho in H.
+    eapply IH; [|exact H]. rewrite replace_nth_length. exact He.
+Qed.
